@@ -50,6 +50,12 @@ class VTask(asyncio.Task):
     def __hash__(self):
         return self._vhash
 
+    def cancel(self, msg=None):
+        hook = self.get_loop().on_task_cancel
+        if hook is not None:
+            hook(self)
+        return super().cancel(msg)
+
 
 class VLoop(asyncio.AbstractEventLoop):
     def __init__(self, seqgen=None, horizon=5000, tie_api=None, task_hash_mode=0):
@@ -68,6 +74,7 @@ class VLoop(asyncio.AbstractEventLoop):
         self._seqgen = seqgen or (lambda: 0)
         self._running = False
         self.on_task_created = None
+        self.on_task_cancel = None
         self.advances = 0
 
     # -- the event-loop contract used by asyncio.sleep / wait / gather / Queue / Task / Future
@@ -236,6 +243,7 @@ class VLoop(asyncio.AbstractEventLoop):
         self.coros = []
         self.on_quiescent = []
         self.on_task_created = None
+        self.on_task_cancel = None
         try:
             asyncio.tasks._current_tasks.pop(self, None)
         except Exception:
